@@ -1,12 +1,12 @@
-"""C14, process backend: one case in a FRESH interpreter (the process evaluator forks a manager and a worker pool).
+"""C14, process / loky backend: one case in a FRESH interpreter (the process evaluators fork / spawn a worker pool and a
+storage manager; a forked child of the multi-threaded harness would deadlock).
 Every status write goes through a logging wrapper around the SharedMemoryStorage proxy, every status poll of a
-run-function (in a worker process) is logged under the same manager lock; the log itself is a manager list.
+run-function (in a worker process) is logged under the same manager lock; the log itself is a manager list.  The
+evaluator lives in this process: its entry points are instrumented exactly as for the in-process backends.
 usage: python -m vp.props.c14_child <case.json>      prints  @@RESULT@@{...}"""
 import json
 import multiprocessing as mp
 import sys
-import tempfile
-import threading
 import time
 import warnings
 
@@ -18,119 +18,69 @@ class LogStore:
 
     def __init__(self, inner, log, lock):
         self.inner, self.log, self.lock = inner, log, lock
+        self.t00 = time.time()
 
     def store_job_status(self, job_id, job_status):
         with self.lock:
             self.inner.store_job_status(job_id, job_status)
-            self.log.append([int(job_id.split(".")[1]), 0, int(job_status)])
+            self.log.append([int(job_id.split(".")[1]), 0, int(job_status), int((time.time() - self.t00) * 1000)])
 
     def __getattr__(self, k):
-        if k.startswith("__") or k in ("inner", "log", "lock"):
+        if k.startswith("__") or k in ("inner", "log", "lock", "t00"):
             raise AttributeError(k)
         return getattr(self.inner, k)
 
 
 def run_proc(job, shared=None):
     from deephyper.evaluator import JobStatus
+    from vp.props.c14 import K_POLL, run_body
 
-    log, lock, plan, cap = shared
-    jid = int(job.id.split(".")[1])
-    kind, dur, every, extra = plan[jid % len(plan)][:4]
-    b = plan[jid % len(plan)]
-    val = 0 if len(b) > 4 and b[4] == "zero" else 1000 + jid
+    log, lock, plan, cap, t00 = shared
 
-    def poll():
+    def emit(j, kind, arg):
         with lock:
-            s = job.status
-            log.append([jid, 2, int(s.value)])
-        return s
+            if kind == K_POLL:
+                s = arg.status
+                log.append([j, K_POLL, int(s.value), int((time.time() - t00) * 1000)])
+                return s
+            log.append([j, kind, arg, int((time.time() - t00) * 1000)])
 
-    with lock:
-        log.append([jid, 1, 0])
-    t0 = time.time()
-    while time.time() - t0 < (dur if kind == "short" else cap):
-        time.sleep(every)
-        s = poll()
-        if s is JobStatus.CANCELLING:
-            if extra:
-                time.sleep(extra)
-                poll()
-            break
-    with lock:
-        log.append([jid, 3, 0])
-    return val
+    return run_body(job, plan, cap, emit, time.sleep, JobStatus.CANCELLING)
 
 
 def main():
     case = json.load(open(sys.argv[1]))
-    from deephyper.evaluator import Evaluator, JobStatus
+    from deephyper.evaluator import Evaluator
     from deephyper.evaluator.storage import SharedMemoryStorage
-    from deephyper.hpo import HpProblem, RandomSearch
+    from vp.props.c14 import drive, instrument
 
-    T = case["timeout"]
-    cap = T + 3.5
+    cap = case["timeout"] + 3.5
     mgr = mp.Manager()
     log, lock = mgr.list(), mgr.RLock()
     storage = LogStore(SharedMemoryStorage(), log, lock)
-    evaluator = Evaluator.create(run_proc, method="process", method_kwargs={
-        "num_workers": case["workers"], "storage": storage, "run_function_kwargs": {"shared": (log, lock, case["plan"], cap)}})
+    t00 = storage.t00  # diagnostic timestamps only: never compared
+    evaluator = Evaluator.create(run_proc, method=case["backend"], method_kwargs={
+        "num_workers": case["workers"], "storage": storage, "run_function_kwargs": {"shared": (log, lock, case["plan"], cap, t00)}})
 
-    def sentinel():
+    def emit(j, kind, arg):
         with lock:
-            log.append([0, 9, 0])
+            log.append([j, kind, arg, int((time.time() - t00) * 1000)])
 
-    timers = [threading.Timer(T + 0.4, sentinel), threading.Timer(T + 1.9, sentinel)]
-    for t in timers:
-        t.daemon = True
-    problem = HpProblem()
-    problem.add_hyperparameter((0.0, 10.0), "x")
-    mode = case.get("mode", "search")
-    table = []
-    with tempfile.TemporaryDirectory(prefix="vp_c14p_") as d:
-        for t in timers:
-            t.start()
-        if mode == "evaluator":
-            evaluator.timeout = T
-            evaluator.submit([{"x": float(i)} for i in range(case["njobs"])])
-            jobs = evaluator.gather("ALL")
-            evaluator.close()
-            for job in jobs:
-                out = job.output
-                table.append([int(job.id.split(".")[1]), int(job.status.value), int(out) if isinstance(out, (int, float)) else -1])
-        else:
-            search = RandomSearch(problem, evaluator, random_state=1, log_dir=d)
-            if mode == "search":
-                df = search.search(timeout=T)
-            elif mode == "evtimeout_search":
-                evaluator.timeout = T
-                df = search.search(max_evals=case["max_evals"])
-            elif mode == "search_max":
-                df = search.search(max_evals=case["max_evals"], timeout=T)
-            else:
-                df = search.search(max_evals=case["max_evals"], timeout=T, max_evals_strict=True)
-            if df is not None:
-                for _, row in df.iterrows():
-                    try:
-                        o = int(float(row["objective"]))
-                    except (TypeError, ValueError):
-                        o = -1
-                    table.append([int(row["job_id"]), int(JobStatus[row["job_status"]].value), o])
+    def snapshot():
         with lock:
-            n_at_return = len(log)
-        time.sleep(0.3)
-        for t in timers:
-            t.cancel()
-        with lock:
-            tr = [list(e) for e in log]
-        late = sum(1 for e in tr[n_at_return:] if e[1] in (1, 2, 3))
-        njobs = len(storage.load_all_job_ids(evaluator._search_id))
-    from vp.props.c14 import valof
+            return [list(e) for e in log]
 
-    vals = sorted({e[0]: valof(case["plan"], e[0]) for e in tr if e[1] == 3}.items())
+    hooks = {}
+    instrument(evaluator, emit, hooks)
+    table, late, tr = drive(case, evaluator, emit, snapshot, hooks)
+    njobs = len(storage.load_all_job_ids(evaluator._search_id))
     ex = getattr(evaluator, "executor", None)
     if ex is not None:
-        ex.shutdown(wait=False, cancel_futures=True)
-    sys.stdout.write("\n@@RESULT@@" + json.dumps(dict(njobs=njobs, trace=tr, vals=[list(v) for v in vals], table=table, late=late)) + "\n")
+        try:
+            ex.shutdown(wait=False, cancel_futures=True)
+        except TypeError:  # loky's executor
+            ex.shutdown(wait=False, kill_workers=True)
+    sys.stdout.write("\n@@RESULT@@" + json.dumps(dict(njobs=njobs, trace=tr, table=table, late=late)) + "\n")
     sys.stdout.flush()
 
 
